@@ -11,7 +11,7 @@ from codemodder.codemods.utils_mixin import NameResolutionMixin
 from codemodder.codetf import ChangeSet
 from codemodder.dependency import Dependency
 from codemodder.dependency_management.base_dependency_writer import DependencyWriter
-from codemodder.diff import create_diff_from_tree
+from codemodder.diff import create_diff, split_lines
 from codemodder.file_context import FileContext
 
 
@@ -38,12 +38,16 @@ class SetupPyWriter(DependencyWriter):
         if codemod.line_num_changed is None:
             return None
 
-        diff = create_diff_from_tree(input_tree, output_tree)
+        # libcst drops a leading byte order mark: keep it in the diff and on disk
+        diff = create_diff(
+            split_lines(self._bom + input_tree.code),
+            split_lines(self._bom + output_tree.code),
+        )
 
         if not dry_run:
             try:
                 with open(self.path, "w", encoding="utf-8") as f:
-                    f.write(output_tree.code)
+                    f.write(self._bom + output_tree.code)
             except Exception:
                 return None
 
@@ -58,7 +62,9 @@ class SetupPyWriter(DependencyWriter):
 
     def _parse_file(self):
         with open(self.path, encoding="utf-8") as f:
-            return cst.parse_module(f.read())
+            source = f.read()
+        self._bom = "\ufeff" if source.startswith("\ufeff") else ""
+        return cst.parse_module(source)
 
 
 class SetupPyAddDependencies(SimpleCodemod, NameResolutionMixin):
